@@ -48,8 +48,17 @@ StepN(M, st) ==
             THEN {IF s.amb THEN "accepted_answer_not_transmitted:identical_ids_in_flight_on_two_connections" ELSE "accepted_answer_not_transmitted"} ELSE {}) \cup
         (IF s.r # "ok" /\ txOf(s.key) # {} /\ Cardinality({x \in 1..Len(A.subs) : A.subs[x].key = s.key}) = 1 THEN {"answer_transmitted_despite_error"} ELSE {}) \cup
         (IF s.r = "ok" /\ st.act.a = "submit" /\ StOf(M0.prevCst, s.c) \notin READY THEN {"answer_accepted_for_connection_not_ready"} ELSE {}) \cup
-        (IF s.r \notin {"ok", "NotRoutable"} THEN {"submission_failed_with_other_error"} ELSE {})
-      sigs == UNION {bad(A.subs[x]) : x \in 1..Len(A.subs)}
+        (IF s.r \notin {"ok", "NotRoutable"} /\ ~s.again THEN {"submission_failed_with_other_error"} ELSE {})
+      \* concurrent submissions of one answer (schedule scenarios): whatever the order in which the callers return,
+      \* at most one is accepted and at most one copy is transmitted, on the requester's connection
+      conc == "twice" \in DOMAIN st.act
+      oks == {j \in 1..Len(out) : out[j].ev = "submit" /\ out[j].r = "ok"}
+      ctx == {j \in 1..Len(out) : out[j].ev = "tx" /\ ~out[j].m.req /\ Key(out[j].m) = Key(st.act.m)}
+      vConc == (IF Cardinality(oks) > 1 THEN {"second_answer_transmitted"} ELSE {}) \cup
+               (IF Cardinality(ctx) > 1 THEN {"answer_transmitted_twice"} ELSE {}) \cup
+               (IF \E j \in ctx : out[j].c # c0 THEN {"answer_transmitted_on_other_connection"} ELSE {}) \cup
+               (IF Cardinality(oks) = 0 /\ ctx # {} THEN {"answer_transmitted_despite_error"} ELSE {})
+      sigs == IF conc THEN vConc ELSE UNION {bad(A.subs[x]) : x \in 1..Len(A.subs)}
   IN [M0 EXCEPT !.viol = @ \cup {[sig |-> s, at |-> M0.i] : s \in sigs}, !.deliv = A.deliv, !.taint = A.taint, !.prevCst = st.snap.cst,
                 !.R = RUpdate(M0.R, st)]
 Step(M, s0) == StepN(M, Norm(s0))
